@@ -64,3 +64,9 @@ Proof. apply nodup_b_NoDup. vm_compute. reflexivity. Qed.
 
 Lemma funcmap_nonempty : Nat.leb 100 (List.length func_names) = true.
 Proof. vm_compute. reflexivity. Qed.
+
+Lemma funcmap_hermetic_all :
+  (forall f, In f forbidden_names -> ~ In f func_names) /\
+  (forall f, In f required_names -> In f func_names) /\
+  NoDup func_names /\ Nat.leb 100 (List.length func_names) = true.
+Proof. exact (conj funcmap_hermetic (conj funcmap_overrides_present (conj funcmap_nodup funcmap_nonempty))). Qed.
